@@ -43,10 +43,10 @@ def families(tier):
   LT = [{'ret': ['ok']}, {'ret': ['fail_subtest']}, {'ret': ['ok'], 'diag': ['A']}, {'ret': ['stop']}]
   fam.append(('td2', 2, 1, 'teardown-templates', LT, CKPT_SMALL, BR_SMALL))
   if tier == 'thorough':
-    fam.append(('td3', 3, 1, 'teardown-templates', LT, CKPT_SMALL, BR_SMALL))
+    fam.append(('td3', 3, 1, 'teardown-templates', LT[:3], CKPT_SMALL, BR_SMALL))
     fam += [
-        ('k2d2full', 2, 2, allk, LEAVES_FULL, CKPT_FULL, BR_FULL),
-        ('k3d1full', 3, 1, allk, LEAVES_FULL, CKPT_SMALL, BR_FULL),
+        ('k2d2full', 2, 2, allk, LEAVES_FULL, CKPT_SMALL, BR_SMALL),
+        ('k3d1full', 3, 1, allk, LEAVES_SMALL + [{'ret': ['ok'], 'diag': ['A']}], CKPT_SMALL, BR_SMALL),
         ('k3d2', 3, 2, ['grp', 'sub', 'br'], [{'ret': ['ok']}, {'ret': ['fail_subtest']}], CKPT_SMALL, BR_SMALL),
         ('k3d2x', 3, 2, ['grp', 'br'], [{'ret': ['ok'], 'diag': ['A']}, {'ret': ['stop']}], CKPT_SMALL, BR_SMALL),
         ('k4d1', 4, 1, ['grp', 'sub'], LEAVES_TINY, CKPT_SMALL, BR_SMALL),
